@@ -172,6 +172,15 @@ func init() {
 			}
 			cells = e.sliceElems(header)
 			if len(cells) > 0 && !st.src.bomStrip && e.decide(bom) {
+				// nothing in the pipeline removes the mark: it is glued to the first header cell, and if that
+				// cell is written in quotes the reader meets a quote inside an unquoted field
+				if len(f.F) > 4 && e.decide(f.F[4].(*Term)) {
+					if getPath(p.Obj.V, []int{fieldIndex(p.Obj.Typ, "LazyQuotes")}).(*Term).IsTrue() {
+						e.unsupported("csv.Reader with LazyQuotes over a BOM followed by a quoted cell")
+					}
+					st.row++
+					return TupleV{SliceV{}, e.newError("parse error on line 1, column 4: bare \" in non-quoted-field")}
+				}
 				cells[0] = strConcat(e.tf, chStr(e.tf, "\xef\xbb\xbf"), cells[0].(StrV))
 			}
 		} else {
@@ -189,8 +198,11 @@ func init() {
 		if c, ok := constInt(getPath(p.Obj.V, []int{fieldIndex(rt, "Comment")}).(*Term)); !ok || c != 0 {
 			e.unsupported("csv.Reader with a Comment character")
 		}
-		if c, ok := constInt(getPath(p.Obj.V, []int{fieldIndex(rt, "FieldsPerRecord")}).(*Term)); !ok || c != 0 {
-			e.unsupported("csv.Reader with FieldsPerRecord set")
+		// FieldsPerRecord as documented: 0 = the first record fixes the count (and the reader stores it),
+		// positive = required count, negative = no check
+		fpr, ok := constInt(getPath(p.Obj.V, []int{fieldIndex(rt, "FieldsPerRecord")}).(*Term))
+		if !ok {
+			e.unsupported("csv.Reader with a symbolic FieldsPerRecord")
 		}
 		if getPath(p.Obj.V, []int{fieldIndex(rt, "TrimLeadingSpace")}).(*Term).IsTrue() {
 			for i, c := range cells {
@@ -210,7 +222,9 @@ func init() {
 		if reuse {
 			st.last = &rec
 		}
-		if st.row > 1 && len(cells) != header.Len {
+		if fpr == 0 {
+			p.Obj.V = setPath(p.Obj.V, []int{fieldIndex(rt, "FieldsPerRecord")}, e.tf.Int(int64(len(cells))))
+		} else if fpr > 0 && len(cells) != fpr {
 			return TupleV{rec, e.newError("record on line: wrong number of fields")}
 		}
 		return TupleV{rec, IfaceV{}}
